@@ -66,28 +66,31 @@ Neigh == /\ IsEvent("neigh")
 
 \* ------------------------------------------------------------------ sockets
 NoAddr == <<>>
+\* a dual-stack IPv6 socket names IPv4 peers by v4-mapped addresses (RFC 4291 2.5.5.2, ::ffff:a.b.c.d):
+\* on the wire that is the IPv4 address a.b.c.d
+Unmap(a) == IF Len(a) = 16 /\ (\A i \in 1..10 : a[i] = 0) /\ a[11] = 255 /\ a[12] = 255 THEN SubSeq(a, 13, 16) ELSE a
 Sock == /\ IsEvent("sock")
         /\ socks' = (<<Ev.host, Ev.s>> :> [proto |-> Ev.proto, bnic |-> 0, laddr |-> NoAddr, lport |-> 0,
                                            raddr |-> NoAddr, rport |-> 0, conn |-> FALSE]) @@ socks
         /\ UNCHANGED <<cfgv, sent, rxs, lastId>>
 Bind == /\ IsEvent("bind")
         /\ LET k == <<Ev.host, Ev.s>> IN
-           socks' = [socks EXCEPT ![k].bnic = Ev.nic, ![k].laddr = Ev.addr, ![k].lport = Ev.port]
+           socks' = [socks EXCEPT ![k].bnic = Ev.nic, ![k].laddr = Unmap(Ev.addr), ![k].lport = Ev.port]
         /\ UNCHANGED <<cfgv, sent, rxs, lastId>>
 Connect == /\ IsEvent("connect")
            /\ LET k == <<Ev.host, Ev.s>> IN
-              socks' = [socks EXCEPT ![k].raddr = Ev.addr, ![k].rport = Ev.port, ![k].conn = TRUE,
+              socks' = [socks EXCEPT ![k].raddr = Unmap(Ev.addr), ![k].rport = Ev.port, ![k].conn = TRUE,
                                      ![k].bnic = IF Ev.nic # 0 THEN Ev.nic ELSE @]
            /\ UNCHANGED <<cfgv, sent, rxs, lastId>>
 SendTo == /\ IsEvent("sendto")
-          /\ sent' = sent \cup {[host |-> Ev.host, s |-> Ev.s, addr |-> Ev.addr, port |-> Ev.port]}
+          /\ sent' = sent \cup {[host |-> Ev.host, s |-> Ev.s, addr |-> Unmap(Ev.addr), port |-> Ev.port]}
           /\ UNCHANGED <<cfgv, socks, rxs, lastId>>
 \* what the API reports fills in what is still unknown (ephemeral port, address chosen by connect); it never
 \* replaces the binding the socket was given: C06 judges frames against the socket, not the API against itself
 Local == /\ IsEvent("local")
          /\ LET k == <<Ev.host, Ev.s>> IN
             socks' = [socks EXCEPT ![k].lport = IF @ = 0 THEN Ev.port ELSE @,
-                                   ![k].laddr = IF socks[k].conn /\ @ = NoAddr THEN Ev.addr ELSE @]
+                                   ![k].laddr = IF socks[k].conn /\ @ = NoAddr THEN Unmap(Ev.addr) ELSE @]
          /\ UNCHANGED <<cfgv, sent, rxs, lastId>>
 
 \* ------------------------------------------------------------------ packets
